@@ -237,8 +237,11 @@ call_with_inference_limit(G, L, R) :-
     ),
     '$get_current_block'(Bb),
     '$get_b_value'(B),
-    call_with_inference_limit(G, L, R, Bb, B),
-    '$remove_call_policy_check'(B).
+    % the result is unified only after the limit is lifted: a bound R must
+    % not interfere with the bookkeeping of call_with_inference_limit/5.
+    call_with_inference_limit(G, L, R0, Bb, B),
+    '$remove_call_policy_check'(B),
+    R = R0.
 
 
 :- meta_predicate(call_with_inference_limit(0,?,?,?,?)).
